@@ -91,6 +91,14 @@ F_PREFIXES = [['R', 'K'], ['O', 'K', 'R']]
 F_ALPHA = ['R', 'D', 'A', 'K', 'C']
 
 
+R_PREFIXES = [['O', 'K', 'D'], ['O', 'K', 'R', 'D']]
+R_ALPHA = ['R', 'C', 'K', 'F', 'O']
+
+
+def _r_ok(w):
+  return w.count('R') >= 2 and 'C' in w and ('K' in w or 'F' in w)
+
+
 def _f_ok(w):
   return 'D' in w and 'A' in w
 
@@ -144,6 +152,12 @@ def cases(prop, tier, seed):
     out.append({'kind': 'singleton', 'ops': _with_q(w)})
   for pre in F_PREFIXES:
     for w in _words(F_ALPHA, 4 if quick else 6, _f_ok):
+      out.append({'kind': 'singleton', 'ops': _with_q(pre + w)})
+  # the holder closes while a replacement connection (after a failure) is being opened and one or more requests
+  # wait for it: the prefix leaves a dead connection installed; every word with >= 2 requests, a close and an
+  # open completion / failure
+  for pre in R_PREFIXES:
+    for w in _words(R_ALPHA, 4 if quick else 6, _r_ok):
       out.append({'kind': 'singleton', 'ops': _with_q(pre + w)})
   for _ in range(900 if quick else 15000):
     n = rng.randint(4, 10)
